@@ -49,13 +49,33 @@ def run(ctx, rep):
         return any("callee" in t and re.search(r"PartialEq", callee(t)) for _, t in b_.calls()) or any(s_[0] == "=" and s_[2][0] == "bin" and s_[2][1] in ("Eq", "Ne") for blk in b_.blocks for s_ in blk["s"])
     if len(pred) == 1:
         c = pred[0]
+        # names under which the ignore_ctime option is visible: the field itself and every local of is_parent that is a copy of
+        # `self.ignore_ctime` (a renamed local must not matter); extended to helper parameters when the predicate is a named fn
+        ct_names = {"ignore_ctime"}
+        for l_, ns_ in IP.local_names().items():
+            ds_ = [d_ for d_ in IP.defs().get(l_, []) if d_[0] == "stmt"]
+            if len(ds_) == 1 and ds_[0][4][0] == "use" and op_place(ds_[0][4][1]) and "ignore_ctime" in place_fields(op_place(ds_[0][4][1])):
+                ct_names |= {n_.split("__")[-1] for n_ in ns_}
         hops = 0
         while not has_cmp(c) and hops < 3:
             inner = [(bb, t) for bb, t in c.calls() if "callee" in t and callee(t) in prog.bodies and callee(t).startswith("rustic_core::") and bb in flow.backward_slice(c, [0])["call_sites"]]
             if len(inner) != 1:
                 break
-            c = prog.bodies[callee(inner[0][1])]
+            H_ = prog.bodies[callee(inner[0][1])]
+            for ai_, a_ in enumerate(inner[0][1]["args"]):
+                nm_, _ = cond_name(c, flow.expr_of(c, a_, inner[0][0]))
+                if nm_ in ct_names:
+                    ct_names |= {n_.split("__")[-1] for n_ in H_.local_names().get(ai_ + 1, [])}
+            c = H_
             hops += 1
+
+        def ct_flag_eval(val):
+            def ev(body, e):
+                nm, neg = cond_name(body, e)
+                if nm not in ct_names:
+                    return None
+                return val != neg
+            return ev
         rep.observe(f"C11.a: predicate body analysed: {fn_key(c)}")
         for f in ("node_type", "size", "mtime"):
             vals = bool_result_under(c, field_cmp_eval(f, False))
@@ -84,7 +104,7 @@ def run(ctx, rep):
         rep.check("C11.a", "compares/ctime", ct_direct or ct_zip, where=c.loc(), what="ctime of parent and current node are compared")
         if ct_direct:
             # evaluated: both ctimes present and different, ignore_ctime off -> never a match
-            fe, fc = flag_eval("ignore_ctime", False), field_cmp_eval("ctime", False)
+            fe, fc = ct_flag_eval(False), field_cmp_eval("ctime", False)
 
             def ev_ct(b_, e):
                 v = fc(b_, e)
@@ -111,7 +131,7 @@ def run(ctx, rep):
                 t = c.term(sw)
                 if t["k"] == "switch" and t["discr_ty"] == "bool":
                     nm, _neg = cond_name(c, flow.expr_of(c, t["discr"]))
-                    if nm == "ignore_ctime":
+                    if nm in ct_names:
                         ig = True
             rep.check("C11.a", "ctime-bypass-only-ignore_ctime", ig, where=c.loc(), what="the ctime comparison is skipped only under ignore_ctime")
     # the node returned as Matched is the one the predicate accepted: Iterator::find(predicate)
